@@ -88,6 +88,15 @@ impl<'a> Model<'a> {
 //@stub base/src/links.rs Model::get_cell_link
     ensures r.is_ok() ==> r.unwrap() == self.link_at(sheet, row, column)
 //@end
+//@stub base/src/links.rs Model::set_cell_link
+    ensures r.is_ok() == old(self).cell_ok(sheet, row, column),      // fails only for a bad sheet / cell position (check_valid_cell, worksheet_mut)
+            r.is_ok() ==> final(self).link_at(sheet, row, column) == Some(link), r.is_err() ==> *final(self) == *old(self)
+//@end
+//@stub base/src/links.rs Model::delete_cell_link
+    ensures r.is_ok() == old(self).cell_ok(sheet, row, column),
+            r.is_ok() ==> final(self).link_at(sheet, row, column) == None::<Link>, r.is_err() ==> *final(self) == *old(self)
+//@end
+    pub uninterp spec fn cell_ok(&self, sheet: u32, row: i32, column: i32) -> bool;
 //@stub base/src/model.rs Model::get_cell_style_or_none
     ensures r.is_ok() ==> r.unwrap() == self.own_style_at(sheet, row, column)
 //@end
@@ -278,6 +287,18 @@ impl<'a> UserModel<'a> {
         final(self).history == old(self).history, final(self).send_queue == old(self).send_queue,
 //@rewrite `) -> Result<(), String> {` => `) -> (r: Result<(), String>) {`
 //@end
+/// set_cell_link, label step: if the label cannot be written (the engine refuses, changing nothing), the link that was attached a moment
+/// ago is put back to what the cell had before the call — the failed call leaves the cell's link as it was (C04)
+pub fn set_cell_link_label_step(&mut self, sheet: u32, row: i32, column: i32, label: &str, link_changed: bool, old_link: Option<Link>) -> (r: Result<(), String>)
+    requires !link_changed ==> old(self).model.link_at(sheet, row, column) == old_link,
+        link_changed ==> old(self).model.cell_ok(sheet, row, column),      // the link was attached a moment ago with these coordinates
+    ensures r.is_err() ==> final(self).model.link_at(sheet, row, column) == old_link,
+            final(self).history == old(self).history, final(self).send_queue == old(self).send_queue,
+{
+//@fragment base/src/user_model/links.rs UserModel::set_cell_link `if let Err(e) = self` .. `return Err(e);`
+//@end
+    Ok(())
+}
 // sheet visibility / deletion / move: the recorded diff names the sheet, carries the state (or the whole sheet) as it was BEFORE the call,
 // and the engine call is the redo of that diff
 //@fn base/src/user_model/common.rs UserModel::unhide_sheet
